@@ -2,7 +2,7 @@
 From Coq Require Import List String Bool NArith.
 From RC Require Import lib.Pep440 lib.Name model.Merge model.Graph model.Possible model.Solver model.Explain model.Check
                        proofs.SolverP proofs.ChainsP proofs.WitnessSolver proofs.SolverStatements.
-From RC Require Import model.BoundaryTypes gen.BoundaryConsts model.Boundary proofs.BoundaryP.
+From RC Require Import model.BoundaryTypes gen.BoundaryConsts model.Boundary proofs.BoundaryP gen.SolverConsts.
 Import ListNotations.
 Open Scope string_scope.
 
@@ -79,3 +79,10 @@ Theorem C09_unusable_source_findlinks_arguments_are_diagnosed :
   Forall (fun e => build_repo_failure e = Exits 1) repo_argument_failures.
 Proof. exact repo_argument_failures_exit_1. Qed.
 Print Assumptions C09_unusable_source_findlinks_arguments_are_diagnosed.
+
+(* Tie of the model's walk-back budget to the source (read on every run): the re-compiles after a conflict are
+   started with max_downgrade - 1 - the model's `S maxdg' => ... maxdg'` -, which is what bounds the number of
+   nested walk-backs by max_downgrade. *)
+Theorem C09_walkback_spends_the_downgrade_budget : walkback_budget_decrement = 1.
+Proof. reflexivity. Qed.
+Print Assumptions C09_walkback_spends_the_downgrade_budget.
